@@ -56,6 +56,7 @@ type Obligation struct {
 	th      *Theory
 	facts   []string
 	ExpectSat bool // cover obligations: must be SAT
+	Preset    bool // result decided by the generator (rule not applicable / source not covered)
 }
 
 type jumpFrame struct {
